@@ -114,7 +114,9 @@ def sortBy (lt : (Nat × Int) → (Nat × Int) → Bool) (l : List (Nat × Int))
   l.foldl (fun acc x => insertBy lt x acc) []
 
 def showWorkers (s : St) : String :=
-  let l := (s.regl.filter (fun i => (s.objs i).flag)).map (fun i => ((s.objs i).name, (s.objs i).order))
+  -- the model's `GetRunningBackgroundWorkers` (`runningList`, what `C20_running_list_*` are about); ties are in no
+  -- particular order (`sort.Slice`), so the answer is canonicalised by (order, name) on both sides
+  let l := (runningList s).map (fun i => ((s.objs i).name, (s.objs i).order))
   let l := sortBy (fun a b => a.2 < b.2 || (a.2 == b.2 && a.1 < b.1)) l
   "[" ++ " ".intercalate (l.map (fun p => s!"{p.1}:{p.2}")) ++ "]"
 
@@ -149,10 +151,15 @@ def lastAnswer (s : St) : String :=
     | .refuse _ _ .panic => "panic"
     | _ => acc) "?"
 
+/-- The variadic `order ...int` argument of a `bw` op: `-` = no order given, `a,b,…` = several. -/
+def parseOrders (tok : String) : Option (List Int) :=
+  if tok == "-" then some [] else (tok.splitOn ",").mapM String.toInt?
+
 def doOp (d : DSt) : List String → DSt × String
   | ["bw", n, o, k] =>
-    match n.toNat?, o.toInt? with
-    | some n, some o =>
+    match n.toNat?, parseOrders o with
+    | some n, some os =>
+      let o := effOrder os
       let i := d.s.n
       let (s1, _) := runThread 10 d.s (.bw d.nextCall n o .call)
       let ans := lastAnswer s1
